@@ -135,8 +135,8 @@ def stale_uses(P, fn):
                 if fn.find_path(st, lambda n: n is c, barrier=kills) is None:
                     continue
                 for u in uses:
-                    if c.contains(u):
-                        continue  # argument of the switching call itself: evaluated before the call
+                    # (an argument of the switching call itself is evaluated before the call: the search
+                    #  starts after the call, so such a use is only found again through a loop back edge)
                     w = fn.find_path(c, lambda n: n is u, barrier=kills)
                     if w is not None:
                         out.append((info["name"], st, c, u, w))
